@@ -800,9 +800,6 @@ func fnCause(f object.Function) string {
 
 // fnSig: signature of a function failure: construct class + outcome.
 func fnSig(f object.Function, key, outcome string) string {
-	if f.Name != nil && f.Name.Literal() != key {
-		return "binding-lost:alias-of-named-function"
-	}
 	if !createdAtRoot(f) {
 		return "function-" + outcome + ":closure-captured-variable"
 	}
@@ -881,7 +878,7 @@ func emitSave(c *Ctx, s *eval.State, orig map[string]object.Object, maxLen int, 
 					continue
 				}
 				named := "0"
-				if f.Name != nil {
+				if f.Name != nil && f.Name.Literal() == k {
 					named = "1"
 				}
 				bs = append(bs, Hx([]byte(k))+":O:"+named+":"+Hx([]byte(f.Inspect())))
@@ -1231,7 +1228,7 @@ func run(c *Ctx) {
 	x := &gen{c, &Gen{R: c.R, O: GenOpts{AvoidKnown: true, MaxDepth: 3}}}
 	n, nf := 260, 60
 	if c.Thorough() {
-		n, nf = 9000, 1500
+		n, nf = 6000, 1000
 	}
 	limits := []int{0, 0, 0, 8, 30, 200}
 	for i := 0; i < n; i++ {
